@@ -8,11 +8,17 @@ package ksim
 import (
 	"encoding/binary"
 	"fmt"
+	"runtime/debug"
 	"sync"
 	"syscall"
 
 	libaudit "github.com/elastic/go-libaudit/v2"
+
+	"verif/engine/guard"
 )
+
+// one guarded mapping per process (the harnesses that switch Guard on are sequential)
+var guardRegion *guard.Region
 
 // UAPI numbers (linux/audit.h, linux/netlink.h) - see refdata.
 const (
@@ -53,7 +59,7 @@ type Datagram struct {
 }
 
 // Deviation names.
-var DevNames = []string{"deliver", "1-event-first", "3-events-first", "1-EINTR", "9-EINTR", "9-EAGAIN", "9-alternating", "10-EAGAIN", "stale-reply-first", "short-ack", "wrong-ack-type", "ack-foreign-seq", "ENOBUFS-once"}
+var DevNames = []string{"deliver", "1-event-first", "3-events-first", "1-EINTR", "9-EINTR", "9-EAGAIN", "9-alternating", "10-EAGAIN", "stale-reply-first", "short-ack", "wrong-ack-type", "ack-foreign-seq", "ENOBUFS-once", "data-before-ack"}
 
 const (
 	DevDeliver = iota
@@ -69,12 +75,27 @@ const (
 	DevWrongType
 	DevForeignSeq
 	DevENOBUFS
+	DevDataFirst // the data reply overtakes its acknowledgement (the real kernel never does this)
 )
 
 // MustFail reports whether the deviation is outside what the client must
 // tolerate (the op it hits may fail, and must not report success if it
 // replaces the acknowledgement).
-func MustFail(dev int) bool { return dev >= DevEAGAIN10 }
+func MustFail(dev int) bool { return dev >= DevEAGAIN10 && dev != DevDataFirst }
+
+// MayFail: the op may fail or succeed; if it reports success, what it returns must be exact.
+func MayFail(dev int) bool { return dev == DevDataFirst }
+
+// Shape fixes header details of what the simulated kernel sends that the small default
+// alphabet holds constant; the sweeps enumerate them one at a time.
+type Shape struct {
+	ReplyFlags  uint16 // ORed into nlmsg_flags of every acknowledgement / data / done message
+	EventType   uint16 // record type of unsolicited events (0 = 1300)
+	EventFlags  uint16 // nlmsg_flags of unsolicited events
+	ForceEvents int    // this many unsolicited events in front of EVERY datagram (no deviation budget spent)
+	Errno       int    // when non-zero: the verdict menu is {0, Errno}
+	ErrnoAlways bool   // with Errno: every request is answered with it (no choice)
+}
 
 // Sim is the simulated kernel.
 type Sim struct {
@@ -101,6 +122,11 @@ type Sim struct {
 	FaultsOnly   bool            // only transient / hard receive failures (no events, no ACK replacement)
 	CloseAnswers []syscall.Errno // menu for the result of Close (index 0 = default)
 	AckOnlyDevs  bool
+	Shape        Shape
+	// Guard: every datagram is handed to the parser with cap == len and its last byte on the last
+	// byte of a mapped page, the next page inaccessible: a read past the datagram faults (and
+	// panics: SetPanicOnFault) instead of seeing poison
+	Guard bool
 }
 
 // New returns a simulated kernel with a 64 KiB receive buffer.
@@ -126,6 +152,17 @@ func hdr(length int, typ uint16, flags uint16, seq uint32, pid uint32) []byte {
 }
 
 func (s *Sim) enqueue(kind string, forSeq uint32, b []byte) *Datagram {
+	if s.Shape.ReplyFlags != 0 && len(b) >= HdrLen {
+		binary.LittleEndian.PutUint16(b[6:], binary.LittleEndian.Uint16(b[6:])|s.Shape.ReplyFlags)
+	}
+	if n := s.Shape.ForceEvents; n > 0 {
+		for i := 0; i < n; i++ {
+			e := &Datagram{ID: s.nextID, Bytes: s.eventDatagram(i), Kind: "event", decided: true}
+			s.nextID++
+			s.Q = append(s.Q, e)
+			s.All = append(s.All, e)
+		}
+	}
 	d := &Datagram{ID: s.nextID, Bytes: b, Kind: kind, ForSeq: forSeq}
 	s.nextID++
 	s.Q = append(s.Q, d)
@@ -163,7 +200,15 @@ func (s *Sim) Send(msg syscall.NetlinkMessage) (uint32, error) {
 	if s.Closes > 0 {
 		return req.Seq, syscall.EBADF
 	}
-	errno := s.Verdicts[s.choose(fmt.Sprintf("verdict(type=%d)", req.Type), len(s.Verdicts))]
+	var errno int
+	switch {
+	case s.Shape.Errno != 0 && s.Shape.ErrnoAlways:
+		errno = s.Shape.Errno
+	case s.Shape.Errno != 0:
+		errno = []int{0, s.Shape.Errno}[s.choose(fmt.Sprintf("verdict(type=%d)", req.Type), 2)]
+	default:
+		errno = s.Verdicts[s.choose(fmt.Sprintf("verdict(type=%d)", req.Type), len(s.Verdicts))]
+	}
 	req.Errno = errno
 	if req.Flags&syscall.NLM_F_ACK != 0 || errno != 0 {
 		s.enqueue("ack", req.Seq, Ack(req, errno))
@@ -195,9 +240,13 @@ func (s *Sim) Send(msg syscall.NetlinkMessage) (uint32, error) {
 	return req.Seq, nil
 }
 
-func eventDatagram(n int) []byte {
+func (s *Sim) eventDatagram(n int) []byte {
 	p := []byte(fmt.Sprintf("audit(1700000000.000:%d): unsolicited event %d", 900+n, n))
-	return append(hdr(HdrLen+len(p), 1300, 0, 0, 0), p...)
+	t := uint16(1300)
+	if s.Shape.EventType != 0 {
+		t = s.Shape.EventType
+	}
+	return append(hdr(HdrLen+len(p), t, s.Shape.EventFlags, 0, 0), p...)
 }
 
 // Receive implements NetlinkReceiver.
@@ -283,7 +332,7 @@ func (s *Sim) Receive(nonBlocking bool, p libaudit.NetlinkParser) ([]syscall.Net
 				}
 				var evs []*Datagram
 				for i := 0; i < k; i++ {
-					e := &Datagram{ID: s.nextID, Bytes: eventDatagram(i), Kind: "event", decided: true}
+					e := &Datagram{ID: s.nextID, Bytes: s.eventDatagram(i), Kind: "event", decided: true}
 					s.nextID++
 					s.All = append(s.All, e)
 					evs = append(evs, e)
@@ -303,6 +352,9 @@ func (s *Sim) Receive(nonBlocking bool, p libaudit.NetlinkParser) ([]syscall.Net
 			d.decided = true
 			if d.Kind == "ack" {
 				repMenu := []int{DevDeliver, DevStale, DevShortAck, DevWrongType, DevForeignSeq}
+				if len(s.Q) > 1 && s.Q[1].Kind == "data" && s.Q[1].ForSeq == d.ForSeq {
+					repMenu = append(repMenu, DevDataFirst)
+				}
 				dev := repMenu[s.choose("replace-ack", len(repMenu))]
 				if dev != DevDeliver {
 					note(dev)
@@ -324,6 +376,10 @@ func (s *Sim) Receive(nonBlocking bool, p libaudit.NetlinkParser) ([]syscall.Net
 				case DevForeignSeq:
 					d.Bytes = append([]byte{}, d.Bytes...)
 					binary.LittleEndian.PutUint32(d.Bytes[8:], d.ForSeq+7)
+				case DevDataFirst:
+					s.Q[0], s.Q[1] = s.Q[1], s.Q[0]
+					s.Q[0].decided = true
+					d = s.Q[0]
 				}
 			}
 		}
@@ -335,7 +391,20 @@ func (s *Sim) Receive(nonBlocking bool, p libaudit.NetlinkParser) ([]syscall.Net
 	}
 	n := copy(s.Buf, d.Bytes)
 	s.Log = append(s.Log, fmt.Sprintf("recv=%s#%d(seq=%d)", d.Kind, d.ID, binary.LittleEndian.Uint32(d.Bytes[8:])))
-	msgs, err := p(s.Buf[:n])
+	in := s.Buf[:n]
+	if s.Guard {
+		if guardRegion == nil {
+			r, err := guard.New(1 << 16)
+			if err != nil {
+				panic("ksim: cannot map the guarded region: " + err.Error())
+			}
+			guardRegion = r
+		}
+		guardRegion.Poison(0xEE)
+		in = guardRegion.AtEnd(d.Bytes)
+		debug.SetPanicOnFault(true)
+	}
+	msgs, err := p(in)
 	if err != nil {
 		return nil, fmt.Errorf("failed to parse netlink messages (bytes_received=%v): %w", n, err)
 	}
